@@ -113,11 +113,20 @@ Listener make_listener() {
     l.port = ntohs(a.sin_port);
     return l;
 }
-// a port nobody listens on (bound then closed)
-std::uint16_t dead_port() {
-    auto l = make_listener();
-    ::close(l.fd);
-    return l.port;
+// a port nobody listens on: bound (so that nothing else can be given the number) but never put into the listening state,
+// connections are refused.  The caller closes the descriptor when the case is over.
+Listener make_refusing() {
+    Listener l;
+    l.fd = ::socket(AF_INET, SOCK_STREAM, 0);
+    sockaddr_in a{};
+    a.sin_family = AF_INET;
+    a.sin_addr.s_addr = htonl(INADDR_ANY);
+    a.sin_port = 0;
+    if (::bind(l.fd, reinterpret_cast<sockaddr*>(&a), sizeof(a)) != 0) throw std::runtime_error("bind failed");
+    socklen_t len = sizeof(a);
+    ::getsockname(l.fd, reinterpret_cast<sockaddr*>(&a), &len);
+    l.port = ntohs(a.sin_port);
+    return l;
 }
 
 bool send_str(int fd, const std::string& s) {
@@ -224,8 +233,10 @@ struct Endpoint {
     bool transport() const { return kind == 't' || kind == 'r'; }
 };
 
-void serve_control(int c, const std::string& script) {
-    (void)read_header(c);
+// both serve_* functions return false when the peer had already gone away (a stale connection left in the backlog by a
+// client that timed out): the parent then repeats the op instead of trusting its outcome
+bool serve_control(int c, const std::string& script) {
+    if (read_header(c).empty()) return false;
     const auto eq = script.find('=');
     const std::string verb = script.substr(0, eq);
     const std::string body = eq == std::string::npos ? std::string{} : str_of_hex(script.substr(eq + 1));
@@ -242,27 +253,28 @@ void serve_control(int c, const std::string& script) {
     } else {
         send_str(c, "STATUS:ERROR\nCODE:ERR_FETCH_CHUNK_MISSING\nMESSAGE:Chunk not available locally\n\n");
     }
+    return true;
 }
 
-void serve_transport(int c, const Endpoint& ep, const Crafted& crafted) {
+bool serve_transport(int c, const Endpoint& ep, const Crafted& crafted) {
     socket_set_timeout(c, std::chrono::milliseconds{3000});
     if (ep.kind == 'r') {
         auto line = socket_read_line(c, std::chrono::milliseconds{0});
-        if (!line.has_value() || line->rfind("CONNECT ", 0) != 0) return;
+        if (!line.has_value() || line->rfind("CONNECT ", 0) != 0) return false;
         send_str(c, "OK\n");
     }
     en::PeerId initiator{};
-    if (!socket_recv_all(c, initiator.data(), initiator.size())) return;
+    if (!socket_recv_all(c, initiator.data(), initiator.size())) return false;
     std::array<std::uint8_t, 4> lenb{};
-    if (!socket_recv_all(c, lenb.data(), lenb.size())) return;
+    if (!socket_recv_all(c, lenb.data(), lenb.size())) return true;
     const std::uint32_t len = (std::uint32_t(lenb[0]) << 24) | (std::uint32_t(lenb[1]) << 16) | (std::uint32_t(lenb[2]) << 8) | lenb[3];
-    if (len > 65536) return;
+    if (len > 65536) return true;
     std::vector<std::uint8_t> frame(len);
-    if (len && !socket_recv_all(c, frame.data(), frame.size())) return;
+    if (len && !socket_recv_all(c, frame.data(), frame.size())) return true;
     const auto hs = protocol::decode(frame);
-    if (!hs.has_value()) return;
+    if (!hs.has_value()) return true;
     const auto* hp = std::get_if<protocol::TransportHandshakePayload>(&hs->payload);
-    if (!hp) return;
+    if (!hp) return true;
     const std::uint32_t my_public = en::network::KeyExchange::compute_public(kPeerPrivate);
     const auto shared = en::network::KeyExchange::derive_shared_secret(kPeerPrivate, hp->public_identity);
     std::array<std::uint32_t, 2> ordered{hp->public_identity, my_public};
@@ -280,10 +292,11 @@ void serve_transport(int c, const Endpoint& ep, const Crafted& crafted) {
     ap.negotiated_version = protocol::kCurrentMessageVersion;
     ap.responder_public = my_public;
     ack.payload = ap;
-    if (!send_protocol_message(c, key, ack)) return;
-    if (!ap.accepted) return;
+    if (!send_protocol_message(c, key, ack)) return false;
+    if (!ap.accepted) return true;
     const auto req = receive_protocol_message(c, key, std::chrono::milliseconds{3000});
-    if (!req.has_value() || req->type != protocol::MessageType::Request) return;
+    if (!req.has_value()) return false;   // an initiator that was accepted always sends its request
+    if (req->type != protocol::MessageType::Request) return true;
     const auto eq = ep.script.find('=');
     const std::string verb = ep.script.substr(0, eq);
     if (verb == "chunk") {
@@ -308,6 +321,7 @@ void serve_transport(int c, const Endpoint& ep, const Crafted& crafted) {
         send_protocol_message(c, key, m);
     }
     // "close": say nothing
+    return true;
 }
 
 // Child process: serve the listed endpoints until killed; report each accepted connection's endpoint
@@ -334,6 +348,7 @@ void serve_transport(int c, const Endpoint& ep, const Crafted& crafted) {
             const std::uint8_t tag = static_cast<std::uint8_t>(owner[k] & 0x3f);
             if (log_fd >= 0) { (void)!::write(log_fd, &tag, 1); }
             const auto t_accept = std::chrono::steady_clock::now();
+            bool peer_present = true;
             try {
                 if (!ping_file.empty()) {
                     (void)read_header(c);
@@ -342,9 +357,9 @@ void serve_transport(int c, const Endpoint& ep, const Crafted& crafted) {
                     if (fs::exists(ping_file)) send_str(c, "STATUS:OK\nCODE:OK_PING\n\n");
                     else { write_file(ping_file + ".armed", "1"); send_str(c, "STATUS:ERROR\nCODE:ERR_NOT_YET\n\n"); }
                 } else if (ep.transport()) {
-                    serve_transport(c, ep, *crafted);
+                    peer_present = serve_transport(c, ep, *crafted);
                 } else {
-                    serve_control(c, ep.script);
+                    peer_present = serve_control(c, ep.script);
                 }
             } catch (...) {
             }
@@ -353,7 +368,7 @@ void serve_transport(int c, const Endpoint& ep, const Crafted& crafted) {
             // completion record: 0x80|idx when the scripted answer went out well inside the CLI's shortest timeout
             // (2 s handshake), 0xC0|idx when this process was too slow (loaded machine) -- the parent then repeats the op
             const auto ms = std::chrono::duration_cast<std::chrono::milliseconds>(std::chrono::steady_clock::now() - t_accept).count();
-            const std::uint8_t done = static_cast<std::uint8_t>((ms < 900 ? 0x80 : 0xC0) | tag);
+            const std::uint8_t done = static_cast<std::uint8_t>((ms < 900 && peer_present ? 0x80 : 0xC0) | tag);
             if (log_fd >= 0) { (void)!::write(log_fd, &done, 1); }
         }
     }
@@ -401,6 +416,119 @@ ServerProc spawn_server(std::vector<Endpoint>& eps, const Crafted* crafted, cons
 }
 
 // ------------------------------------------------------------------------------------------------
+// the warm endpoint server used by `fetch` ops: forked once, told per case which endpoints to play
+// (forking a sanitizer-instrumented process per case costs hundreds of milliseconds on a loaded machine
+// and made the freshly forked child miss the CLI's two-second handshake timeout)
+//   parent -> child : "CASE <payload-hex> <kind:prio:script> ...\n"   child -> parent : "PORTS p0 p1 ...\n"
+//   parent -> child : "END\n"                                          child -> parent : "LOG <hex>\n"
+// ------------------------------------------------------------------------------------------------
+struct WarmServer {
+    pid_t pid{-1};
+    int cmd_w{-1};
+    int rsp_r{-1};
+};
+WarmServer g_warm;
+
+bool read_line_fd(int fd, std::string& line) {
+    line.clear();
+    char ch = 0;
+    while (true) {
+        const ssize_t n = ::read(fd, &ch, 1);
+        if (n <= 0) return false;
+        if (ch == '\n') return true;
+        line.push_back(ch);
+    }
+}
+
+[[noreturn]] void warm_loop(int cmd_r, int rsp_w) {
+    ::prctl(PR_SET_PDEATHSIG, SIGKILL);
+    ::signal(SIGPIPE, SIG_IGN);
+    std::vector<Endpoint> eps;
+    Crafted crafted;
+    std::string log;
+    std::vector<int> reserved;   // bound, non-listening sockets standing for endpoints that are down
+    auto close_all = [&] {
+        for (auto& e : eps) if (e.listener.fd >= 0) { ::close(e.listener.fd); e.listener.fd = -1; }
+        for (int fd : reserved) ::close(fd);
+        reserved.clear();
+    };
+    while (true) {
+        std::vector<pollfd> fds;
+        std::vector<std::size_t> owner;
+        fds.push_back({cmd_r, POLLIN, 0});
+        for (std::size_t i = 0; i < eps.size(); ++i) if (eps[i].listener.fd >= 0) { fds.push_back({eps[i].listener.fd, POLLIN, 0}); owner.push_back(i); }
+        if (::poll(fds.data(), fds.size(), -1) <= 0) continue;
+        if (fds[0].revents & (POLLIN | POLLHUP)) {
+            std::string line;
+            if (!read_line_fd(cmd_r, line)) ::_exit(0);
+            const auto tok = verif::split(line);
+            if (tok[0] == "CASE" && tok.size() >= 2) {
+                close_all();
+                eps.clear();
+                log.clear();
+                crafted = craft_manifest(str_of_hex(tok[1]));
+                std::string reply = "PORTS";
+                for (std::size_t i = 2; i < tok.size(); ++i) {
+                    const auto parts = verif::split(tok[i], ':');
+                    Endpoint e;
+                    if (parts.size() == 3 && parts[0].size() == 1) { e.kind = parts[0][0]; e.prio = std::atoi(parts[1].c_str()); e.script = parts[2]; }
+                    if (e.script == "down") {
+                        Listener refusing = make_refusing();
+                        reserved.push_back(refusing.fd);
+                        e.listener.port = refusing.port;
+                    } else {
+                        e.listener = make_listener();
+                    }
+                    reply += " " + std::to_string(e.listener.port);
+                    eps.push_back(e);
+                }
+                reply += "\n";
+                (void)!::write(rsp_w, reply.data(), reply.size());
+            } else if (tok[0] == "END") {
+                close_all();
+                const std::string reply = "LOG " + (log.empty() ? std::string("-") : verif::to_hex(log)) + "\n";
+                (void)!::write(rsp_w, reply.data(), reply.size());
+            }
+            continue;
+        }
+        for (std::size_t k = 1; k < fds.size(); ++k) {
+            if (!(fds[k].revents & POLLIN)) continue;
+            const std::size_t idx = owner[k - 1];
+            const int c = ::accept(fds[k].fd, nullptr, nullptr);
+            if (c < 0) continue;
+            log.push_back(static_cast<char>(idx & 0x3f));
+            const auto t_accept = std::chrono::steady_clock::now();
+            bool peer_present = true;
+            try {
+                peer_present = eps[idx].transport() ? serve_transport(c, eps[idx], crafted) : serve_control(c, eps[idx].script);
+            } catch (...) {
+            }
+            ::shutdown(c, SHUT_RDWR);
+            ::close(c);
+            const auto ms = std::chrono::duration_cast<std::chrono::milliseconds>(std::chrono::steady_clock::now() - t_accept).count();
+            log.push_back(static_cast<char>((ms < 900 && peer_present ? 0x80 : 0xC0) | (idx & 0x3f)));
+        }
+    }
+}
+
+void ensure_warm() {
+    if (g_warm.pid > 0) return;
+    int a[2], b[2];
+    if (::pipe(a) != 0 || ::pipe(b) != 0) throw std::runtime_error("pipe");
+    std::cout.flush();
+    const pid_t pid = ::fork();
+    if (pid < 0) throw std::runtime_error("fork");
+    if (pid == 0) {
+        ::close(a[1]);
+        ::close(b[0]);
+        warm_loop(a[0], b[1]);
+    }
+    ::close(a[0]);
+    ::close(b[1]);
+    g_warm = WarmServer{pid, a[1], b[0]};
+}
+
+// ------------------------------------------------------------------------------------------------
 // C30
 // ------------------------------------------------------------------------------------------------
 int g_counter = 0;
@@ -416,14 +544,25 @@ std::string op_fetch_once(const std::vector<std::string>& t, bool& timing_suspec
     std::vector<Endpoint> eps;
     for (std::size_t i = 3; i < t.size(); ++i) {
         const auto parts = verif::split(t[i], ':');
-        if (parts.size() != 3 || parts[0].size() != 1) return "bad-op";
+        if (parts.size() != 3 || parts[0].size() != 1 || std::string("trcfl").find(parts[0][0]) == std::string::npos) return "bad-op";
         Endpoint e;
         e.kind = parts[0][0];
         e.prio = std::stoi(parts[1]);
         e.script = parts[2];
-        e.listener = make_listener();
-        if (e.script == "down") { ::close(e.listener.fd); e.listener.fd = -1; }
         eps.push_back(e);
+    }
+    if (eps.size() > 60) return "bad-op";
+    ensure_warm();
+    {
+        std::string cmd = "CASE " + t[2];
+        for (std::size_t i = 3; i < t.size(); ++i) cmd += " " + t[i];
+        cmd += "\n";
+        if (::write(g_warm.cmd_w, cmd.data(), cmd.size()) != static_cast<ssize_t>(cmd.size())) return "crash:endpoint-server";
+        std::string reply;
+        if (!read_line_fd(g_warm.rsp_r, reply)) return "crash:endpoint-server";
+        const auto ports = verif::split(reply);
+        if (ports.size() != eps.size() + 1 || ports[0] != "PORTS") return "crash:endpoint-server";
+        for (std::size_t i = 0; i < eps.size(); ++i) eps[i].listener.port = static_cast<std::uint16_t>(std::stoul(ports[i + 1]));
     }
     std::uint16_t local_port = 0;
     for (const auto& e : eps) {
@@ -433,16 +572,15 @@ std::string op_fetch_once(const std::vector<std::string>& t, bool& timing_suspec
         else if (e.kind == 'c') crafted.manifest.discovery_hints.push_back({"control", "control", endpoint, static_cast<std::uint8_t>(e.prio)});
         else if (e.kind == 'f') crafted.manifest.fallback_hints.push_back({"control://" + endpoint, static_cast<std::uint8_t>(e.prio)});
         else if (e.kind == 'l') local_port = e.listener.port;
-        else return "bad-op";
     }
-    if (local_port == 0) local_port = dead_port();
+    Listener local_refusing;
+    if (local_port == 0) { local_refusing = make_refusing(); local_port = local_refusing.port; }
     const std::string uri = protocol::encode_manifest(crafted.manifest);
     const fs::path dir = fs::path(g_scratch) / ("f" + std::to_string(++g_counter));
     fs::create_directories(dir);
     const fs::path out = dir / "out.bin";
     if (pre) write_file(out, "OLD");
 
-    auto server = spawn_server(eps, &crafted);
     std::vector<std::string> args{"--control-host", "127.0.0.1", "--control-port", std::to_string(local_port),
                                   "--identity-seed", "77"};
     if (pre) args.push_back("--yes");
@@ -453,7 +591,7 @@ std::string op_fetch_once(const std::vector<std::string>& t, bool& timing_suspec
     if (mode == "direct") args.push_back("--direct-only");
     else if (mode == "tonly") args.push_back("--transport-only");
     else if (mode == "cfb") args.push_back("--control-fallback");
-    else if (mode != "auto") { server.stop(); return "bad-op"; }
+    else if (mode != "auto") return "bad-op";
     CliResult r;
     std::string thrown;
     try {
@@ -461,8 +599,17 @@ std::string op_fetch_once(const std::vector<std::string>& t, bool& timing_suspec
     } catch (const std::exception& ex) {
         thrown = verif::exception_name(ex);
     }
-    server.stop();
-    const std::string tags = server.drain();
+    if (local_refusing.fd >= 0) ::close(local_refusing.fd);
+    std::string tags;
+    {
+        const std::string cmd = "END\n";
+        std::string reply;
+        if (::write(g_warm.cmd_w, cmd.data(), cmd.size()) != static_cast<ssize_t>(cmd.size()) || !read_line_fd(g_warm.rsp_r, reply) ||
+            reply.rfind("LOG ", 0) != 0) {
+            return "crash:endpoint-server";
+        }
+        tags = str_of_hex(reply.substr(4));
+    }
     std::string tried;
     std::set<int> accepted, done_fast;
     for (unsigned char ch : tags) {
@@ -904,6 +1051,7 @@ std::string op_cfg(const std::vector<std::string>& t, bool e2e) {
 
 void cleanup() {
     g_honest.stop();
+    if (g_warm.pid > 0) { ::kill(g_warm.pid, SIGKILL); int st = 0; ::waitpid(g_warm.pid, &st, 0); }
     g_node.reset();
     if (!g_scratch.empty()) {
         std::error_code ec;
